@@ -740,8 +740,10 @@ static void exec_op(const Op &op, bool incb) {
 		unsigned type = (op.a[1] % 3 == 0) ? EVENT_BASE_COUNT_ACTIVE : (op.a[1] % 3 == 1) ? EVENT_BASE_COUNT_ADDED : (EVENT_BASE_COUNT_ACTIVE | EVENT_BASE_COUNT_ADDED);
 		int got = API(event_base_get_max_events(base, type, clear));
 		int want = 0;
-		if (type & EVENT_BASE_COUNT_ACTIVE) { want += m.count_active_max; if (clear) m.count_active_max = 0; }
-		if (type & EVENT_BASE_COUNT_ADDED) { want += m.event_count_max; if (clear) m.event_count_max = 0; }
+		bool uncertain = false;
+		if (type & EVENT_BASE_COUNT_ACTIVE) { want += m.count_active_max; uncertain |= m.max_uncertain_active; if (clear) { m.count_active_max = 0; m.max_uncertain_active = false; } }
+		if (type & EVENT_BASE_COUNT_ADDED) { want += m.event_count_max; uncertain |= m.max_uncertain_added; if (clear) { m.event_count_max = 0; m.max_uncertain_added = false; } }
+		if (uncertain) { probe("max-events-after-a-timer-tie"); break; }
 		if (got != want) violation("C02.max-events", "event_base_get_max_events(type=%u) = %d, model %d", type, got, want);
 		break;
 	}
